@@ -32,7 +32,7 @@ except ImportError:
 
 
 __all__ = ["sympify", "substitute_with_eval", "to_numpy", "get_variables", "get_free_symbols", "recursive_substitution",
-           "evaluate_lambdified", "get_most_simple_representation"]
+           "evaluate_lambdified", "get_most_simple_representation", "rename_clashing_bound_symbols"]
 
 
 _lru_cache = functools.lru_cache(maxsize=2048, typed=True)
@@ -308,6 +308,39 @@ def get_free_symbols(expression: sympy.Expr) -> Sequence[sympy.Symbol]:
     return tuple(symbol
                  for symbol in expression.free_symbols
                  if not isinstance(symbol, sympy.Indexed))
+
+
+def rename_clashing_bound_symbols(expression: sympy.Expr, clashing) -> sympy.Expr:
+    """Rename the bound symbols of Sum/Product/Integral terms in ``expression`` that are in ``clashing``.
+
+    Substituting an expression that mentions a symbol ``i`` into the scope of a term that binds ``i`` is captured by
+    the bound symbol: ``Sum(a*i, (i, 0, 2)).subs({a: i})`` is ``Sum(i**2, (i, 0, 2))``. Call this function with the
+    free symbols of the expressions that are about to be substituted before the substitution. Each clashing bound symbol
+    is replaced by a fresh :class:`sympy.Dummy` of the same name in its scope. The expression is returned as it is if
+    no bound symbol clashes.
+    """
+    clashing = frozenset(clashing)
+
+    def binds_clashing(term) -> bool:
+        # a limit that only consists of the symbol marks an indefinite integral: the symbol is free
+        return isinstance(term, sympy.concrete.expr_with_limits.ExprWithLimits) and any(
+            len(limit) > 1 and limit[0] in clashing for limit in term.limits)
+
+    def rename(term):
+        function, limits = term.function, list(term.limits)
+        for idx, limit in enumerate(limits):
+            bound = limit[0]
+            if len(limit) > 1 and bound in clashing:
+                fresh = {bound: sympy.Dummy(bound.name)}
+                function = function.xreplace(fresh)
+                # the scope are the function and the bounds of the limits left of this one
+                limits[:idx] = [(inner[0], *(b.xreplace(fresh) for b in inner[1:])) for inner in limits[:idx]]
+                limits[idx] = (fresh[bound], *limit[1:])
+        return term.func(function, *limits)
+
+    if not clashing or not any(map(binds_clashing, expression.atoms(sympy.concrete.expr_with_limits.ExprWithLimits))):
+        return expression
+    return expression.replace(binds_clashing, rename)
 
 
 def get_variables(expression: sympy.Expr) -> Sequence[str]:
